@@ -1743,6 +1743,9 @@ fn main() {
                     (format!("{pt} and x"), v.is_some() && walk(rec, &["x"]).is_some()),
                     (format!("{pt} or x"), v.is_some() || walk(rec, &["x"]).is_some()),
                     (format!("not {pt} and not x or b"), (v.is_none() && walk(rec, &["x"]).is_none()) || walk(rec, &["b"]).is_some()),
+                    // a group whose first operand is itself a group: nothing of the outer group may be lost
+                    (format!("(({pt} or x) and b)"), (v.is_some() || walk(rec, &["x"]).is_some()) && walk(rec, &["b"]).is_some()),
+                    (format!("x or (({pt}) and not b)"), walk(rec, &["x"]).is_some() || (v.is_some() && walk(rec, &["b"]).is_none())),
                 ];
                 for (text, want) in cases {
                     let f = Filter::try_from(text.as_str()).expect("filter text");
